@@ -37,7 +37,10 @@ META = {
     'text': 'TIMEX grammar/template agreement: assign_properties, interpreted on the group dictionary of every pattern '
             'shape, stores every group in a Timex field (int for digits) or uses it as unit selector, never raises, '
             'stores ISO designators in the right duration field; parse_string, interpreted on probe strings, hands '
-            'exactly the components to the regex tables; a Timex with one duration field set survives format -> '
+            'exactly the components to the regex tables; hour/minute/second behave as one per-object time of day when '
+            'run as properties (no state shared between objects; no mutable default argument stored in an attribute); '
+            'from_time / from_date / from_date_time yield the canonical TIMEX on a grid of values; '
+            'a Timex with one duration field set survives format -> '
             'parse concretely (probe amounts incl. fractions); every '
             'TimexFormat template is a shape of the grammar and every grammar shape has a template (token-wise '
             'inclusion both ways, fixed_format_number(x,w) as \\d{w}); parse dispatch reaches every pattern family '
